@@ -2,15 +2,28 @@
    under the protocol rules R0..R7 ([wf_protocol])
      C17b  CURRENT always names a complete MANIFEST        (C17_current_complete)
      C05   recovery is total, drops at most a tail per log (C05_recovery_total_and_tail_only)
-     C02   sync-acknowledged batches survive power loss    (C02_synced_durable)
+     C02   sync-acknowledged batches survive power loss    (C02_synced_durable, C02_database_exists)
      C03   a process crash loses nothing                   (C03_process_crash)
-   by induction over the trace with the invariant Inv_dur (FsInv.v, FsDur.v) and
-   Inv_ack (below).
+   by induction over the trace with the invariants Inv_struct (FsInv.v),
+   Inv_dur (FsDur.v: every admissible namespace cut is [Good]) and Inv_trace
+   (FsAck.v: logs, acknowledgements, flush watermark).
 
-   STAGES.  Every theorem covers ALL traces accepted by [wf_protocol]: flushes,
-   compaction edits that replace tables, MANIFEST rollover at open ("Stage B"
-   included).  What the record level says about a batch whose log is obsolete
-   is [flushed]: it was literally contained in tables named by an edit. *)
+   STAGES.  Every theorem covers ALL traces accepted by [wf_protocol]: Stage A
+   (create log, append batch, sync, switch log, flush table, edit, unlink log with
+   a single MANIFEST) AND Stage B (MANIFEST rollover at open, rule R4; compaction
+   edits that replace tables).  No theorem is restricted to Stage A.
+   What the record level says about a batch whose log is below the recovered
+   log_number is [flushed]: when the edit that raised log_number was appended the
+   batch was literally contained in the tables that edit adds (rule R5).  That
+   later compactions preserve its effect is the business of the engine model
+   (Engine.v), not of this file.
+   The unlinked-log clause of C02 needs rule R3's "no rename of CURRENT is waiting
+   for a directory fsync" (lcdb since /repo 0411e80, finding F5); the trace
+   without that fsync is refuted by C02_unlink_before_dirsync_refuted.
+
+   NOT PROVED here: idempotence of recovery (recovering again loses nothing
+   further); a positional (event-index) characterisation of [acks] (the
+   acknowledgement predicates are defined through the protocol state p_call). *)
 From Coq Require Import Lia ZifyBool ZifyNat ZifyN.
 From LCDB Require Import FsModel FsLemmas FsInv FsDur FsAck.
 Local Open Scope N_scope.
